@@ -132,12 +132,15 @@ def parsed_pattern_matches_reference(pattern, levels):
 def _globs(tier, **fixed):
     names = ["test", "tast", "t", "tt", "TEST", "Test", "LivingRoom", "livingroom", "test1", "a-b", "1", "x" * 10]
     pats = ["i-test", "i-t?st", "i-t*t", "i-*", "i-?", "i_test", "itest", "i-[ab]-b", "i-t*", "i-*1", "i-Living*", "i-T?st", "i-TEST"]
+    # a glob denotes whole names: neither a name with something in front of a match (in particular another
+    # "i-" + match) nor one with something behind it
+    names = names + ["ai-" + n for n in names] + ["i-" + n for n in names] + [n + "x" for n in names] + ["x" + n for n in names]
     for p in pats:
         for n in names:
             yield (p, n)
 
 
-@standin("C02", cases=_globs, kind="enum-native", exhaustive=False, bound="13 internal-address glob patterns (lower and mixed case) x 12 names: match == fnmatch of the normalised name against the normalised pattern; group addresses never match an internal pattern and vice versa")
+@standin("C02", cases=_globs, kind="enum-native", exhaustive=False, bound="13 internal-address glob patterns (lower and mixed case) x 60 names (12 base names, each also with a prefix, a suffix and an embedded \"i-\"): match == fnmatch of the normalised name against the normalised pattern; group addresses never match an internal pattern and vice versa")
 def internal_globs_match_by_name(pattern, name):
     f = AddressFilter(pattern)
     addr = InternalGroupAddress("i-" + name)
